@@ -24,7 +24,7 @@ from props import _reduce_util as U
 PROP = "C22"
 READY = True
 DRIVER = "dm_reduce"
-LEAN_MODULES = ["DaskModel.Props.C22", "DaskModel.Lemmas.ArrayReduce", "DaskModel.Lemmas.BlockScan", "DaskModel.Lemmas.TopK"]
+LEAN_MODULES = ["DaskModel.Props.C22", "DaskModel.Lemmas.ArrayReduce", "DaskModel.Lemmas.BlockScan", "DaskModel.Lemmas.TopK", "DaskModel.Lemmas.GridReduce"]
 CASE_TIMEOUT_S = 20
 LEVEL_TEXT = (
     "Proved in Lean 4 (no size bound): K1 treeReduce_eq_fold — for every block list, every group size k "
@@ -34,13 +34,15 @@ LEVEL_TEXT = (
     "blocking: sum, prod, any, all, mean as (total,n), min/max with dask's empty-chunk rule (min_eq_numpy, "
     "max_eq_numpy), argmin/argmax returning the FIRST flat index of the extremum (argmin_eq_numpy, argmax_eq_numpy: "
     "1-d / raveled order, non-empty blocks), top-k (topk_eq_sort_take: the k largest / -k smallest of the whole "
-    "array). K2: sequential cumreduction equals the global scan for every chunking "
+    "array); multi-axis reductions: gridReduce_eq_fold / sum_nd_eq_numpy / prod_nd_eq_numpy — for a commutative monoid, "
+    "every grid of blocks, every per-axis split_every and every depth with n_i ≤ k_i^depth the n-d partial_reduce tree "
+    "returns one block with the fold of all data (product of per-axis partitions is a partition of the grid). K2: sequential cumreduction equals the global scan for every chunking "
     "including zero-length blocks (seqScan_eq_scan); Blelloch: any schedule accepted by the proved interval checker "
     "yields every block prefix (blelloch_sound, blelloch_eq_scan, any monoid, any n), and dask's schedule is accepted "
     "for every n_vals ≤ 32 by kernel evaluation (schedOk_le_32) — larger n is validated (all n ≤ 300 in the thorough "
     "tier): that part is partial. Validated, not proved: float summation order (tolerance), var/std/moment (Chan "
-    "merge), nan-variants, argtopk (indices checked against the values), median/quantile glue, multi-axis value-level equality (the n-d plan "
-    "is diffed against the real graph and executed by the driver on integer data)."
+    "merge), nan-variants, argtopk (indices checked against the values), median/quantile glue, n-d min/max/mean/arg (the n-d plan is diffed against the real "
+    "graph and executed by the driver on integer data)."
 )
 LEVEL_NOTE = (
     "Trusted: Lean kernel + standard axioms; NumPy kernels on one block (np.sum, np.min, np.argmin, np.partition, "
